@@ -163,4 +163,15 @@ of this file are about the model definition, and the equality below re-attaches 
 
 theorem generated_next_probe (s : SegSizes) : UtpVerif.Gen.Fns.nextProbe s.minSs s.maxSs = s.nextProbe := rfl
 
+theorem generated_on_probe_failed (s : SegSizes) (size : Nat) :
+    s.onProbeFailed size = { s with maxSs := UtpVerif.Gen.Fns.probeFailedMaxSs s.maxSs s.minSs size } := rfl
+
+theorem generated_on_payload_delivered (s : SegSizes) (n : Nat) (h : s.maxSs < 65536) :
+    s.onPayloadDelivered n =
+      { s with minSs := UtpVerif.Gen.Fns.deliveredMinSs s.maxSs s.minSs n,
+               maxSs := UtpVerif.Gen.Fns.deliveredMaxSs s.maxSs (UtpVerif.Gen.Fns.deliveredMinSs s.maxSs s.minSs n) } := by
+  unfold SegSizes.onPayloadDelivered UtpVerif.Gen.Fns.deliveredMinSs UtpVerif.Gen.Fns.deliveredMaxSs
+  have : min n s.maxSs % 65536 = min n s.maxSs := Nat.mod_eq_of_lt (by omega)
+  simp only [this]
+
 end UtpVerif.Props.C14
